@@ -60,10 +60,13 @@ def run(rep):
         "is in the index, WF again and the sequence self[:lo] + y + self[max(hi, lo):]; otherwise - also for the identifier of an "
         "element the slice would have replaced - ValueError with list and index unchanged; list slice assignment itself is an assumed "
         "splice axiom (cross-checked against CPython); __setslice__ by that contract (with __getslice__ / __delslice__ dead code "
-        "under Python 3: slicing syntax never calls them). OUTSIDE the claim, inherited from list and not overridden: clear(), *= (and "
+        "under Python 3: slicing syntax never calls them). Selection by a boolean mask dl[[True, False, ...]] (third contract of "
+        "__getitem__, the technique of query): a full-length mask gives a NEW well-formed DictList of exactly the elements whose entry "
+        "is True, in order, self unchanged; an empty mask on an empty list raises IndexError, a list of another length TypeError "
+        "(assumed CPython), nothing changed. OUTSIDE the claim, inherited from list and not overridden: clear(), *= (and "
         "list.__init__ on an existing DictList) desynchronise the index (native reproduction in the module docstring); the method "
         "copy(), * and reversed() return plain lists / iterators without an index. Bounded stand-in (not counted as proved): exhaustive operation histories on the real "
-        "class next to a plain-list oracle; it also covers the operations not under contract (slices with steps, slice assignment from a non-list iterable, masks, "
+        "class next to a plain-list oracle; it also covers the operations not under contract (slices with steps, slice assignment from a non-list iterable, "
         "get_by_any with lists that raise, the pickle codec itself) and cross-checks the list/dict axioms against CPython.")
     rep.trusted += ["CPython list/dict/set built-ins as axiomatised in pyvc/builtins.py",
                     "z3 5.1 / cvc5 1.0.3 soundness", "pyvc executor (guarded by canaries and native cross-check)"]
@@ -72,7 +75,7 @@ def run(rep):
     rep.add_pyvc(REG, Q.KEYS, hooks=Q.HOOKS, fallback=fallback)
     rep.add_lemmas(Q.lemmas())
     rep.trusted += ["re.compile / Pattern.findall, getattr with a symbolic attribute name, a user search function: uninterpreted pure "
-                    "functions (contracts/c15_query.py)", "dir(cls): a new list of strings",
+                    "functions (contracts/c15_query.py)", "dir(cls): a new list of strings", "list.__getitem__(l, <list>) raises TypeError",
                     "list.__setitem__(l, slice, xs) for a simple slice: the splice axiom of contracts/c15_query.py (cross-checked natively)",
                     "pickle's reduce protocol for list items (cls(*args), extend per batch / append, then __setstate__); an unpickled "
                     "Object keeps its identifier"]
